@@ -26,7 +26,7 @@ func codecVal(r *gen.Rng) any {
 	case 1:
 		return int64(r.U64())
 	case 2:
-		return math.Float64frombits(r.U64() &^ (0x7ff << 52) | uint64(r.Intn(2046)+1)<<52)
+		return math.Float64frombits(r.U64()&^(0x7ff<<52) | uint64(r.Intn(2046)+1)<<52)
 	case 3:
 		return gen.Pick(r, []any{math.Copysign(0, -1), math.Inf(1), math.Inf(-1), 0.0, math.MaxFloat64, math.SmallestNonzeroFloat64, int64(math.MinInt64), int64(math.MaxInt64), int64(0)})
 	case 4:
